@@ -13,8 +13,35 @@ the canonical printer emits `rXXxN` for runs of ≥ 32 equal bytes.  Frames: `O:
 namespace Driver.C25
 open Drv _root_.C25 _root_.C25.Tok
 
-def machine : Machine (St × List Nat) SpecSt where
-  init _ := (.begin, [])
+/-- model state: the decoder of `feed` ops (codec state + BytesMut) and the shared encoder buffer -/
+structure MSt where
+  dec : St × List Nat := (.begin, [])
+  out : List Nat := []
+
+structure TSt where
+  feed : SpecSt := {}
+  enc : EncSpecSt := {}
+
+def parseSizes (s : String) : Option (List Nat) :=
+  if s = "-" then some [] else (s.splitOn ",").mapM String.toNat?
+
+/-- `<ok|err:InvalidData:size> add=<bytes> len=<n> prefix=<same|changed>` -/
+def parseEncs (outs : List String) : Option (Bool × List Nat × Nat × Bool) :=
+  match outs with
+  | [r, a, l, p] =>
+    match a.splitOn "=", l.splitOn "=", p.splitOn "=" with
+    | ["add", ab], ["len", ln], ["prefix", pf] =>
+      match parseBytes ab, ln.toNat? with
+      | some ab, some ln =>
+        if r = "ok" then some (true, ab, ln, pf = "same")
+        else if r = "err:InvalidData:size" then some (false, ab, ln, pf = "same")
+        else none
+      | _, _ => none
+    | _, _, _ => none
+  | _ => none
+
+def machine : Machine MSt TSt where
+  init _ := {}
   specInit _ := {}
   op s args :=
     match args with
@@ -26,11 +53,27 @@ def machine : Machine (St × List Nat) SpecSt where
         | some bs => (s, "ok " ++ showBytes bs)
         | none => (s, "err:InvalidData:size")
       | none => (s, "bad-op")
+    | "encs" :: rest =>
+      match parseEnc rest with
+      | some f =>
+        let r := encodeInto s.out f
+        let add := r.2.drop s.out.length
+        let res := match r.1 with
+          | .ok _ => "ok"
+          | .error _ => "err:InvalidData:size"
+        ({ s with out := r.2 }, s!"{res} add={showBytes add} len={r.2.length} prefix=same")
+      | none => (s, "bad-op")
+    | ["decs", sz] =>
+      match parseSizes sz with
+      | some ns =>
+        let r := feedMany .begin [] (cutChunks s.out ns)
+        (s, s!"{showFrames r.1} {showStatus (statusOf r.2.2.2)} rem={r.2.2.1.length}")
+      | none => (s, "bad-op")
     | ["feed", b] =>
       match parseBytes b with
       | some c =>
-        let r := modelFeed s c
-        (r.1, s!"{showFrames r.2.1} {showStatus r.2.2.1} rem={r.2.2.2}")
+        let r := modelFeed s.dec c
+        ({ s with dec := r.1 }, s!"{showFrames r.2.1} {showStatus r.2.2.1} rem={r.2.2.2}")
       | none => (s, "bad-op")
     | _ => (s, "bad-op")
   spec t args outs :=
@@ -51,6 +94,22 @@ def machine : Machine (St × List Nat) SpecSt where
         | ["err:InvalidData:size"] => (t, if specEnc f none then "ok" else "FAIL:encode_limit")
         | _ => (t, "FAIL:unparsable")
       | none => (t, "FAIL:unparsable")
+    | "encs" :: rest =>
+      match parseEnc rest, parseEncs outs with
+      | some f, some (ok, add, len, same) =>
+        let r := specEncInto t.enc f ok add len same
+        ({ t with enc := r.1 }, if r.2 = "ok" then "ok" else "FAIL:" ++ r.2)
+      | _, _ => (t, "FAIL:unparsable")
+    | ["decs", _] =>
+      match outs with
+      | [fs, st, rem] =>
+        match parseFrames fs, parseStatus st, (rem.splitOn "=") with
+        | some fs, some st, ["rem", n] =>
+          match n.toNat? with
+          | some n => let v := specDecs t.enc fs st n; (t, if v = "ok" then "ok" else "FAIL:" ++ v)
+          | none => (t, "FAIL:unparsable")
+        | _, _, _ => (t, "FAIL:unparsable")
+      | _ => (t, "FAIL:unparsable")
     | ["feed", b] =>
       match parseBytes b, outs with
       | some c, [fs, st, rem] =>
@@ -58,8 +117,8 @@ def machine : Machine (St × List Nat) SpecSt where
         | some fs, some st, ["rem", n] =>
           match n.toNat? with
           | some n =>
-            let r := specFeed t c (fs, st, n)
-            (r.1, if r.2 = "ok" then "ok" else "FAIL:" ++ r.2)
+            let r := specFeed t.feed c (fs, st, n)
+            ({ t with feed := r.1 }, if r.2 = "ok" then "ok" else "FAIL:" ++ r.2)
           | none => (t, "FAIL:unparsable")
         | _, _, _ => (t, "FAIL:unparsable")
       | _, _ => (t, "FAIL:unparsable")
